@@ -493,6 +493,6 @@ fn main() {
         }
         i += 1;
     }
-    let opts = RunOptions { tier, seed, shards, verif_root: root, replay, cases_override, strict };
+    let opts = RunOptions { tier, seed, shards, verif_root: root, replay, cases_override, strict, fuzz_bin: None, fuzz_secs: 0, fuzz_driver: None };
     std::process::exit(run_property(&C20, &opts));
 }
